@@ -3,6 +3,9 @@
 #include "../drv/vp.h"
 #include <string>
 #include <vector>
+#include <sys/mman.h>
+#include <unistd.h>
+#include "../drv/enum.h"
 extern "C" {
 #include "a/crc.h"
 #include "a/hash.h"
@@ -276,3 +279,81 @@ static void run_case(Tape &t, Ctx &cx)
     }
 }
 VP_DEFINE_RUN(run_case)
+
+// ---------------------------------------------------------------------------------------
+// "byte strings of any length": one message longer than 2^32 bytes per routine, fed at once and in three pieces that are each
+// shorter than 2^32 (for which the generated checks above establish agreement with the bit-by-bit definition). The message is a
+// 2 MiB block of non-zero pseudo-random bytes mapped 2049 times back to back, so it costs 2 MiB of memory.
+extern "C" int vp_enum(unsigned shard, unsigned nshards, int tier, vp_enum_stats *st)
+{
+    (void)tier;
+    size_t const P = size_t(2) << 20, W = 2049;
+    size_t const N = (size_t(1) << 32) + 5 + (size_t(shard) * 7919u + 13u) % (P - 64);
+    uint8_t *base = (uint8_t *)mmap(nullptr, P * W, PROT_NONE, MAP_PRIVATE | MAP_ANONYMOUS | MAP_NORESERVE, -1, 0);
+    int fd = memfd_create("vp_c17", 0);
+    if (base == MAP_FAILED || fd < 0 || ftruncate(fd, off_t(P)) != 0)
+    {
+        st->domain("messages longer than 2^32 bytes: address space not available, skipped", 0, false);
+        return 0;
+    }
+    {
+        std::vector<uint8_t> blk(P);
+        uint64_t x = 0x9E3779B97F4A7C15ull;
+        for (size_t i = 0; i < P; ++i) { x = x * 6364136223846793005ull + 1442695040888963407ull; blk[i] = uint8_t(1 + (x >> 33) % 255); }
+        if (write(fd, blk.data(), P) != ssize_t(P)) { st->domain("messages longer than 2^32 bytes: memfd write failed, skipped", 0, false); return 0; }
+    }
+    for (size_t k = 0; k < W; ++k)
+    {
+        bool last = k + 1 == W;
+        void *m = mmap(base + k * P, P, last ? PROT_READ | PROT_WRITE : PROT_READ, (last ? MAP_PRIVATE : MAP_SHARED) | MAP_FIXED, fd, 0);
+        if (m == MAP_FAILED) { st->domain("messages longer than 2^32 bytes: mapping failed, skipped", 0, false); return 0; }
+    }
+    base[N] = 0; // terminator for the string forms (private copy of the last window)
+    size_t const c1 = (size_t(1) << 31) - 7, c2 = (size_t(1) << 32) - 3;
+    static char const *const names[] = {"a_crc8", "a_crc16m", "a_crc16l", "a_crc32m", "a_crc32l", "a_crc64m", "a_crc64l", "a_hash_bkdr_", "a_hash_sdbm_", "a_hash_bkdr", "a_hash_sdbm"};
+    int bad = 0;
+    uint64_t cnt = 0;
+    for (unsigned item = shard; item < 11; item += nshards)
+    {
+        uint64_t whole = 0, parts = 0;
+        Table T;
+        if (item < 7)
+        {
+            static int const wd[] = {8, 16, 16, 32, 32, 64, 64};
+            static bool const ls[] = {false, false, true, false, true, false, true};
+            static uint64_t const po[] = {0x07, 0x1021, 0x8005, 0x04C11DB7, 0x1EDC6F41, 0x42F0E1EBA9EA3693ull, 0x000000000000001Bull};
+            int w = wd[item];
+            init_table(w, ls[item], T, po[item]);
+            uint64_t v0 = 0x0123456789ABCDEFull & mask_w(w);
+            whole = run_crc(w, ls[item], T, base, N, v0);
+            parts = run_crc(w, ls[item], T, base, c1, v0);
+            parts = run_crc(w, ls[item], T, base + c1, c2 - c1, parts);
+            parts = run_crc(w, ls[item], T, base + c2, N - c2, parts);
+        }
+        else
+        {
+            bool sdbm = item == 8 || item == 10;
+            a_u32 v0 = 0x2545F491u;
+            if (item < 9) { whole = sdbm ? a_hash_sdbm_(base, N, v0) : a_hash_bkdr_(base, N, v0); }
+            else { whole = sdbm ? a_hash_sdbm(base, v0) : a_hash_bkdr(base, v0); }
+            a_u32 h = sdbm ? a_hash_sdbm_(base, c1, v0) : a_hash_bkdr_(base, c1, v0);
+            h = sdbm ? a_hash_sdbm_(base + c1, c2 - c1, h) : a_hash_bkdr_(base + c1, c2 - c1, h);
+            h = sdbm ? a_hash_sdbm_(base + c2, N - c2, h) : a_hash_bkdr_(base + c2, N - c2, h);
+            parts = h;
+        }
+        ++cnt;
+        if (whole != parts)
+        {
+            char msg[256];
+            snprintf(msg, sizeof(msg), "huge:at_once_vs_pieces: %s over %zu bytes at once = %#llx, fed as %zu + %zu + %zu bytes = %#llx", names[item], N, (unsigned long long)whole, c1, c2 - c1, N - c2, (unsigned long long)parts);
+            st->violation(msg);
+            ++bad;
+        }
+    }
+    st->domain("one message of 2^32 + d bytes per routine (7 CRC updates, 4 hash forms), at once vs three pieces < 2^32 (this shard)", cnt, false);
+    st->s.evaluations = cnt;
+    st->s.nontrivial = cnt;
+    munmap(base, P * W);
+    close(fd);
+    return bad;
+}
